@@ -594,6 +594,21 @@ func (c *TermCtx) Bin(op Op, a, b *Term) *Term {
 		if b.IsConst() && b.C == 0 {
 			return a
 		}
+		// zext(lo) | zext(hi) << k  with k = width(lo), widths adding up: byte re-assembly = concat(hi, lo)
+		if op == OpOr {
+			for i := 0; i < 2; i++ {
+				lo, sh := a, b
+				if i == 1 {
+					lo, sh = b, a
+				}
+				if lo.Op == OpZExt && sh.Op == OpShl && sh.A[1].IsConst() && sh.A[0].Op == OpZExt {
+					l, h, k := lo.A[0], sh.A[0].A[0], int(sh.A[1].C)
+					if k == l.S.W && l.S.W+h.S.W == w {
+						return c.Concat(h, l)
+					}
+				}
+			}
+		}
 		if a == b {
 			if op == OpOr {
 				return a
@@ -782,6 +797,14 @@ func (c *TermCtx) Concat(hi, lo *Term) *Term {
 	}
 	if hi.IsConst() && hi.C == 0 {
 		return c.ZExt(lo, w)
+	}
+	// adjacent extracts of the same term
+	if hi.Op == OpExtract && lo.Op == OpExtract && hi.A[0] == lo.A[0] {
+		hh, hl := int(hi.C>>8), int(hi.C&0xff)
+		lh, ll := int(lo.C>>8), int(lo.C&0xff)
+		if hl == lh+1 {
+			return c.Extract(hi.A[0], hh, ll)
+		}
 	}
 	return c.mk(OpConcat, BV(w), 0, "", hi, lo)
 }
